@@ -4,6 +4,7 @@ package middlewares
 
 import (
 	"os"
+	"time"
 
 	"github.com/golang-jwt/jwt/v4"
 
@@ -104,4 +105,35 @@ func VerifC16Token(h *verifh.H) {
 	h.Assert(!accepted || iss == 1, "accepted only with an accepted issuer")
 	h.Assert(!ok || accepted, "a fully valid token is accepted")
 	h.Observe("accepted", accepted)
+}
+
+// VerifC16Replay: the same bearer string presented twice to one JwtConfig —
+// accepted while valid, it must be rejected once it has expired (and a token
+// rejected first is not accepted later either): acceptance is decided by the
+// token and the clock at the time of the request, not by an earlier answer.
+// Under gosx the second parse sees the same token with the time-dependent
+// part of its shape changed (StubJWT); natively a really signed token with a
+// lifetime of 2 s is replayed after 3.2 s.
+func VerifC16Replay(h *verifh.H) {
+	cfg := &JwtConfig{NodeAudience: []string{"node:n1"}, NodeIssuer: []string{"node:n1"}}
+	firstFresh := h.Choice("firstFresh", 2) == 1
+	text := "stub.token.text"
+	if h.Symbolic() {
+		h.StubJWT(1, 1, 0, true, firstFresh)
+	} else if firstFresh {
+		text = vSignShortLived(cfg, 2*time.Second)
+	} else {
+		text = vSignShortLived(cfg, -time.Hour)
+	}
+	tok, err := cfg.ValidateToken(text)
+	h.Assert((err == nil && tok != nil) == firstFresh, "first presentation: accepted iff unexpired")
+	// time passes: the token is expired now
+	if h.Symbolic() {
+		h.StubJWT(1, 1, 0, true, false)
+	} else {
+		time.Sleep(3200 * time.Millisecond)
+	}
+	tok2, err2 := cfg.ValidateToken(text)
+	h.Assert(!(err2 == nil && tok2 != nil), "the same token presented after its expiry is rejected")
+	h.Observe("first", firstFresh)
 }
